@@ -228,7 +228,8 @@ fn base_tx(n_in: usize, n_out: usize) -> RTx {
                 for (i, x) in t.iter_mut().enumerate() {
                     *x = (i as u8).wrapping_mul(7).wrapping_add(31 * (k as u8 + 1));
                 }
-                RIn { txid_wire: t, vout: 0x0200 + k as u32, script: vec![], sequence: [0x01020304u32, 0xfffffffe, 0x00000005][k % 3] }
+                // the other inputs already carry unlocking scripts when this input is verified
+                RIn { txid_wire: t, vout: 0x0200 + k as u32, script: vec![0x02, 0xa0 + k as u8, 0x07, 0x51], sequence: [0x01020304u32, 0xfffffffe, 0x00000005][k % 3] }
             })
             .collect(),
         outputs: (0..n_out).map(|k| ROut { value: 0x0102030405060700 + k as u64, script: vec![0x76, 0xa9, 0x01, k as u8, 0x88, 0xac] }).collect(),
